@@ -284,6 +284,8 @@ def attempt(fn, *a, **k):
     """Call fn; return its value or a Raised wrapper (never propagates ordinary exceptions)."""
     try:
         return fn(*a, **k)
+    except (Violation, HarnessError):
+        raise          # the harness' own verdicts are never part of an observed outcome
     except Exception as e:  # noqa
         return Raised(e)
 
